@@ -11,7 +11,8 @@ import struct
 
 class Arch(object):
     def __init__(self, name, mn, attrib, plain, labelref, cond, jmp, call, stop, unit, ub,
-                 delay=None, span=0x4000, far=0x100, big=False):
+                 delay=None, span=0x4000, far=0x100, big=False,
+                 bases=(0x1000, 0x10000, 0x8000), cbases=(0x2000, 0x400, 0x20000)):
         self.name, self.mn, self.attrib = name, mn, attrib
         self.plain, self.labelref, self.cond, self.jmp, self.call, self.stop = \
             plain, labelref, cond, jmp, call, stop
@@ -21,6 +22,8 @@ class Arch(object):
         self.span = span        # all pins stay within this window (branch ranges)
         self.far = far          # minimal distance between chains in the base run
         self.big = big
+        # floating chains are placed from address 0 upwards: bases stay within branch range
+        self.bases, self.cbases = bases, cbases
 
 
 def arch_table():
@@ -59,13 +62,16 @@ def arch_table():
         labelref=["mov.w %s, R10"], cond=["jnz %s", "jz %s", "jc %s"], jmp=["jmp %s"],
         call=["call %s"], stop=["mov.w @SP+, PC"])
     return [
-        Arch("x86_32", mn_x86, 32, unit=1, ub=15, far=0x100, **x86_32),
-        Arch("x86_64", mn_x86, 64, unit=1, ub=15, far=0x100, **x86_64),
+        Arch("x86_32", mn_x86, 32, unit=1, ub=15, far=0x100, bases=(0x1000, 0x400000, 0x80, 0x10000),
+             cbases=(0x2000, 0x400, 0x7000000), **x86_32),
+        Arch("x86_64", mn_x86, 64, unit=1, ub=15, far=0x100, bases=(0x1000, 0x400000, 0x80, 0x10000),
+             cbases=(0x2000, 0x400, 0x7000000), **x86_64),
         Arch("arml", mn_arm, 'l', unit=4, ub=4, far=0x10, **arm),
         Arch("armb", mn_arm, 'b', unit=4, ub=4, far=0x10, big=True, **arm),
         Arch("mips32l", mn_mips32, 'l', unit=4, ub=4, far=0x10, **mips),
         Arch("mips32b", mn_mips32, 'b', unit=4, ub=4, far=0x10, big=True, **mips),
-        Arch("msp430", mn_msp430, None, unit=2, ub=8, far=0x8, span=0x300, **msp),
+        Arch("msp430", mn_msp430, None, unit=2, ub=8, far=0x8, span=0x300, bases=(0x100, 0x140),
+             cbases=(0x100, 0x40), **msp),
     ]
 
 
